@@ -192,6 +192,18 @@ func (n *Normer) CondOf(v ssa.Value) *Cond {
 			return cFalse
 		}
 	}
+	for i := len(n.env) - 1; i >= 0; i-- {
+		if p, ok := n.env[i][v]; ok {
+			// a boolean fixed by the case under consideration
+			if k, isK := p.IsConst(); isK && isBoolType(v.Type()) {
+				if k != 0 {
+					return cTrue
+				}
+				return cFalse
+			}
+			break
+		}
+	}
 	switch x := v.(type) {
 	case *ssa.Const:
 		if x.Value != nil && x.Value.String() == "true" {
@@ -277,6 +289,57 @@ func (n *Normer) CondOf(v ssa.Value) *Cond {
 						}
 						return nilC
 					}
+				}
+			}
+			// p == nil / p != nil for a pointer chosen on the way (bars set in the arms of a switch, nil
+			// otherwise): by cases of that choice
+			if (x.Op == token.EQL || x.Op == token.NEQ) && n.phiDepth < 3 {
+				for _, pair := range [][2]ssa.Value{{x.X, x.Y}, {x.Y, x.X}} {
+					phi, isPhi := pair[0].(*ssa.Phi)
+					if !isPhi || !isNilConst(pair[1]) {
+						continue
+					}
+					if _, isPtr := phi.Type().Underlying().(*types.Pointer); !isPtr {
+						continue
+					}
+					if _, bound := n.Bind[phi]; bound {
+						continue
+					}
+					if _, chosen := n.PhiChoice[phi]; chosen {
+						continue
+					}
+					blk := phi.Block()
+					loopCarried := false
+					for _, pr := range blk.Preds {
+						if blk.Dominates(pr) {
+							loopCarried = true
+						}
+					}
+					if loopCarried || blk.Idom() == nil {
+						continue
+					}
+					n.phiDepth++
+					total := cFalse
+					for ei, e := range phi.Edges {
+						pred := blk.Preds[ei]
+						edge := cAnd(n.ReachCond(blk.Parent(), blk.Idom(), pred), n.EdgeCond(pred, blk))
+						var isNil *Cond
+						if isNilConst(e) {
+							isNil = cTrue
+						} else {
+							as := n.Norm(e).asAtom()
+							isNil = &Cond{Kind: CBool, Name: "Eq(" + as + ",nil)"}
+							if as > "nil" {
+								isNil = &Cond{Kind: CBool, Name: "Eq(nil," + as + ")"}
+							}
+						}
+						total = cOr(total, cAnd(edge, isNil))
+					}
+					n.phiDepth--
+					if x.Op == token.NEQ {
+						return cNot(total)
+					}
+					return total
 				}
 			}
 			if isBoolType(x.X.Type()) && (x.Op == token.EQL || x.Op == token.NEQ) {
@@ -615,6 +678,61 @@ func CondRelation(a, b *Cond) (aImpB, bImpA bool, witness string) {
 		reps[bn] = vals
 	}
 	sort.Strings(baseNames)
+	// remainders of one quantity by k and by a divisor of k are not independent: (x % k) % d == x % d.
+	// Both value sets are completed so that every value has a partner, and assignments that
+	// contradict the identity are not assignments of the program.
+	type modLink struct {
+		big, small string
+		d          int64
+	}
+	var links []modLink
+	for _, A := range baseNames {
+		xa, ka, okA := modBase(A)
+		if !okA {
+			continue
+		}
+		for _, B := range baseNames {
+			xb, kb, okB := modBase(B)
+			if !okB || A == B || xa != xb || kb >= ka || ka%kb != 0 || ka > 64 {
+				continue
+			}
+			links = append(links, modLink{A, B, kb})
+			set := map[int64]bool{}
+			for _, v := range reps[B] {
+				set[v] = true
+			}
+			for _, v := range reps[A] {
+				set[v%kb] = true
+			}
+			var vb []int64
+			for v := range set {
+				vb = append(vb, v)
+			}
+			sort.Slice(vb, func(i, j int) bool { return vb[i] < vb[j] })
+			reps[B] = vb
+			setA := map[int64]bool{}
+			for _, v := range reps[A] {
+				setA[v] = true
+			}
+			for _, v := range vb {
+				if v >= 0 {
+					for w := v; w < ka; w += kb {
+						setA[w] = true
+					}
+				} else {
+					for w := v; w > -ka; w -= kb {
+						setA[w] = true
+					}
+				}
+			}
+			var va []int64
+			for v := range setA {
+				va = append(va, v)
+			}
+			sort.Slice(va, func(i, j int) bool { return va[i] < va[j] })
+			reps[A] = va
+		}
+	}
 	var named, opaque []string
 	for bn, op := range cv.bools {
 		if op {
@@ -643,6 +761,11 @@ func CondRelation(a, b *Cond) (aImpB, bImpA bool, witness string) {
 				recBase(i + 1)
 			}
 			return
+		}
+		for _, l := range links {
+			if bv[l.big]%l.d != bv[l.small] {
+				return
+			}
 		}
 		for m := 0; m < 1<<uint(len(named)); m++ {
 			for j, nm := range named {
@@ -868,6 +991,17 @@ func baseDomain(base string) (lo, hi int64, ok bool) {
 			return 0, k - 1, true
 		}
 	}
+	// x & k with a non-negative constant k lies in 0..k (And(k,x) / And(x,k) as one whole base)
+	if strings.HasPrefix(base, "And(") && strings.HasSuffix(base, ")") && closesAtEnd(base, 3) {
+		parts := splitTopLevel(base[4 : len(base)-1])
+		if len(parts) == 2 {
+			for _, p := range parts {
+				if k, err := strconv.ParseInt(p, 10, 64); err == nil && k >= 0 {
+					return 0, k, true
+				}
+			}
+		}
+	}
 	return 0, 0, false
 }
 
@@ -980,4 +1114,54 @@ func splitTopLevel(s string) []string {
 		}
 	}
 	return append(out, s[start:])
+}
+
+// modBase: a base of the form Mod(x,k) with a constant k > 1.
+func modBase(b string) (x string, k int64, ok bool) {
+	if !strings.HasPrefix(b, "Mod(") || !strings.HasSuffix(b, ")") {
+		return "", 0, false
+	}
+	inner := b[4 : len(b)-1]
+	depth := 0
+	cut := -1
+	for i, ch := range inner {
+		switch ch {
+		case '(', '[':
+			depth++
+		case ')', ']':
+			depth--
+			if depth < 0 {
+				return "", 0, false
+			}
+		case ',':
+			if depth == 0 {
+				cut = i
+			}
+		}
+	}
+	if cut < 0 || depth != 0 {
+		return "", 0, false
+	}
+	kk, err := strconv.ParseInt(inner[cut+1:], 10, 64)
+	if err != nil || kk < 2 {
+		return "", 0, false
+	}
+	return inner[:cut], kk, true
+}
+
+// closesAtEnd: the bracket opened at position open of s is closed by the last character of s.
+func closesAtEnd(s string, open int) bool {
+	depth := 0
+	for i := open; i < len(s); i++ {
+		switch s[i] {
+		case '(', '[':
+			depth++
+		case ')', ']':
+			depth--
+			if depth == 0 {
+				return i == len(s)-1
+			}
+		}
+	}
+	return false
 }
